@@ -18,6 +18,7 @@ import (
 	mrand "math/rand"
 	"sort"
 	"strings"
+	"syscall"
 	"testing"
 
 	"pgregory.net/rapid"
@@ -111,7 +112,6 @@ type c17Sim struct {
 	crashes        int
 	rootChecks     int
 	opLoads        int
-	tipDropped     int // evictions that left the known-finding state (excluded by reopening the trie)
 }
 
 func c17Copy(m map[string]struct{}) map[string]struct{} {
@@ -238,33 +238,7 @@ func (s *c17Sim) evict(commit bool) error {
 		s.dirty = false
 	}
 	s.evicted += n
-	if s.tipPageDropped() {
-		// Known finding C17 tip-page-evicted: the cache no longer holds the partially filled last page; the next
-		// allocation would recreate it empty and the next commit would overwrite the stored page. Nothing is lost
-		// yet (storage is consistent), so this class is excluded by abandoning the Trie object and reopening it from
-		// the committer, which is the supported way to start from a cold cache.
-		s.tipDropped++
-		mt, err := MakeTrie(s.com, s.cfg)
-		if err != nil {
-			return fmt.Errorf("MakeTrie (reopen after tip page eviction) error: %v", err)
-		}
-		s.mt = mt
-	}
 	return nil
-}
-
-// tipPageDropped: the page the next node id falls on is partially allocated, exists in storage, and is not cached.
-func (s *c17Sim) tipPageDropped() bool {
-	npp := uint64(s.mt.cache.nodesPerPage)
-	next := uint64(s.mt.nextNodeID)
-	if next%npp == 0 {
-		return false
-	}
-	tip := next / npp
-	if _, cached := s.mt.cache.pageToNIDsPtr[tip]; cached {
-		return false
-	}
-	return len(s.com.memStore[tip]) > 0
 }
 
 // checkRoot compares RootHash with the reference. RootHash commits a modified non-empty trie.
@@ -442,7 +416,7 @@ func c17Exhaust(vk *vkCtx, space string, uni [][]byte, maxLen int, cfg MemoryCon
 	var count, nts int64
 	var rec func()
 	visit := func() {
-		s, err := c17RunSeq(seq, uni, cfg, len(seq) <= 3)
+		s, err := c17RunSeq(seq, uni, cfg, len(seq) <= 2)
 		if err != nil {
 			rp := c17Replay{Space: space, Config: cfg}
 			for _, k := range uni {
@@ -457,9 +431,6 @@ func c17Exhaust(vk *vkCtx, space string, uni [][]byte, maxLen int, cfg MemoryCon
 		count++
 		if nt {
 			nts++
-		}
-		for i := 0; i < s.tipDropped; i++ {
-			vk.Excluded("evict-dropped-partial-tip-page(reopened)")
 		}
 		var sb strings.Builder
 		sb.WriteString(space)
@@ -492,9 +463,20 @@ func c17Exhaust(vk *vkCtx, space string, uni [][]byte, maxLen int, cfg MemoryCon
 			seq = seq[:len(seq)-1]
 		}
 	}
+	cpu0 := c17CPU()
 	rec()
+	vk.Add("cpu_ms/"+space, int64((c17CPU()-cpu0)*1000))
 	vk.Add("sequences/"+space, count)
 	vk.Add("nontrivial/"+space, nts)
+}
+
+// c17CPU is the process CPU time in seconds (cost reporting only; never used by an oracle).
+func c17CPU() float64 {
+	var ru syscall.Rusage
+	if syscall.Getrusage(syscall.RUSAGE_SELF, &ru) != nil {
+		return 0
+	}
+	return float64(ru.Utime.Sec+ru.Stime.Sec) + float64(ru.Utime.Usec+ru.Stime.Usec)/1e6
 }
 
 func c17Universe(first []byte, second []byte) [][]byte {
@@ -516,16 +498,97 @@ func TestVerif_C17_Exhaustive(t *testing.T) {
 	cfgA := MemoryConfig{NodesCountPerPage: 2, CachedNodesCount: 1, PageFillFactor: 0.9, MaxChildrenPagesThreshold: 1}
 	cfgB := MemoryConfig{NodesCountPerPage: 3, CachedNodesCount: 2, PageFillFactor: 0.5, MaxChildrenPagesThreshold: 2}
 	if vkThorough() {
-		c17Exhaust(vk, "u9/len<=5/npp2", u9, 5, cfgA)
-		c17Exhaust(vk, "u9/len<=5/npp3", u9, 5, cfgB)
-		c17Exhaust(vk, "u4/len<=7/npp2", u4, 7, cfgA)
-		if vkNShards() == 16 || vkNShards() == 1 {
-			vk.Exhaustive("all add/delete/commit/evict/reload sequences of length <=5 over the nine 2-byte keys on {0,1,2} (page sizes 2 and 3), and of length <=7 over the keys {0000,0001,0002,0100} (page size 2)")
-		}
-	} else {
 		c17Exhaust(vk, "u9/len<=4/npp2", u9, 4, cfgA)
 		c17Exhaust(vk, "u4/len<=5/npp3", u4, 5, cfgB)
-		vk.Exhaustive("all add/delete/commit/evict/reload sequences of length <=4 over the nine 2-byte keys on {0,1,2} (page size 2) and of length <=5 over {0000,0001,0002,0100} (page size 3)")
+		c17Exhaust(vk, "u4/len<=6/npp2", u4, 6, cfgA)
+		vk.Exhaustive("all add/delete/commit/evict/reload sequences of length <=4 over the nine 2-byte keys on {0,1,2} (page size 2), of length <=5 (page size 3) and of length <=6 (page size 2) over the keys {0000,0001,0002,0100} (complete when all shards of the unit ran)")
+	} else {
+		c17Exhaust(vk, "u9/len<=3/npp2", u9, 3, cfgA)
+		c17Exhaust(vk, "u4/len<=4/npp3", u4, 4, cfgB)
+		vk.Exhaustive("all add/delete/commit/evict/reload sequences of length <=3 over the nine 2-byte keys on {0,1,2} (page size 2) and of length <=4 over {0000,0001,0002,0100} (page size 3) (complete when all shards of the unit ran)")
+	}
+}
+
+// ---------------------------------------------------------------------------------------------------------
+// frozen regressions (plain unit, run first)
+
+// c17Script runs a whitespace-separated script: aHEX add, dHEX delete, c commit, e evict(true), e0 evict(false),
+// r root check, L reload, X crash-reload.
+func c17Script(cfg MemoryConfig, script string) (s *c17Sim, err error) {
+	defer func() {
+		if r := recover(); r != nil {
+			err = fmt.Errorf("panic: %v", r)
+		}
+	}()
+	if s, err = c17NewSim(cfg); err != nil {
+		return
+	}
+	for i, op := range strings.Fields(script) {
+		switch {
+		case op[0] == 'a' || op[0] == 'd':
+			var k []byte
+			if _, err = fmt.Sscanf(op[1:], "%x", &k); err != nil {
+				return s, fmt.Errorf("bad script op %q", op)
+			}
+			if op[0] == 'a' {
+				err = s.add(k)
+			} else {
+				err = s.del(k)
+			}
+		case op == "c":
+			err = s.commit()
+		case op == "e":
+			err = s.evict(true)
+		case op == "e0":
+			err = s.evict(false)
+		case op == "r":
+			err = s.checkRoot()
+		case op == "L":
+			err = s.reload(cfg, false)
+		case op == "X":
+			err = s.reload(cfg, true)
+		default:
+			err = fmt.Errorf("bad script op %q", op)
+		}
+		if err != nil {
+			return s, fmt.Errorf("op %d (%s): %v", i, op, err)
+		}
+	}
+	return s, s.checkRoot()
+}
+
+// TestVerif_C17_Regression freezes confirmed counter-examples.
+//
+// tip-page-evicted (fixed in /repo by 998bb3641e): Evict() dropped the partially filled page on which the next node
+// id falls; the next allocation recreated that page without its stored nodes and the next commit overwrote the stored
+// page, so later lookups failed with ErrLoadedPageMissingNode.
+func TestVerif_C17_Regression(t *testing.T) {
+	vk := vkBegin(t, "C17")
+	vk.Rule("frozen counter-examples replayed as scripts against the map model and the reference hash; non-trivial = every script (each once made the unfixed tree fail); distinct by (config, script)")
+	type rc struct {
+		Name   string
+		Config MemoryConfig
+		Script string
+	}
+	tip := "a0000 a0001 a0002 e a0100 r a0000 d0001 r d0000 d0002 r d0100 r"
+	cases := []rc{
+		{"tip-page-evicted/cache1", MemoryConfig{NodesCountPerPage: 12, CachedNodesCount: 1, PageFillFactor: 0.1, MaxChildrenPagesThreshold: 1}, tip},
+		{"tip-page-evicted/cache3", MemoryConfig{NodesCountPerPage: 12, CachedNodesCount: 3, PageFillFactor: 0.1, MaxChildrenPagesThreshold: 1}, tip},
+		{"tip-page-evicted/commit-then-evict0", MemoryConfig{NodesCountPerPage: 12, CachedNodesCount: 1, PageFillFactor: 0.1, MaxChildrenPagesThreshold: 1},
+			"a0000 a0001 a0002 c e0 a0100 c e0 a0000 d0001 a0200 c e0 d0002 r a0001 r"},
+		{"tip-page-evicted/packing", MemoryConfig{NodesCountPerPage: 12, CachedNodesCount: 1, PageFillFactor: 0.9, MaxChildrenPagesThreshold: 64},
+			"a0000 a0001 a0002 a0100 a0101 e a0200 e a0201 r d0000 d0001 e a0202 r d0100 d0101 d0002 r d0200 d0201 d0202 r"},
+		{"tip-page-evicted/evict-twice", MemoryConfig{NodesCountPerPage: 5, CachedNodesCount: 2, PageFillFactor: 0.5, MaxChildrenPagesThreshold: 1},
+			"a0000 a0001 a0002 a0100 e e0 a0101 e e0 a0102 r d0000 e d0001 r d0002 d0100 r d0101 d0102 r"},
+	}
+	for _, c := range cases {
+		s, err := c17Script(c.Config, c.Script)
+		if err != nil {
+			vk.Failf(c, "regression %s: %v", c.Name, err)
+		}
+		vk.Case(true, fmt.Sprintf("%s|%v|%s", c.Name, c.Config, c.Script))
+		vk.Sample(true, c)
+		vk.Add("regression_evicted_nodes", int64(s.evicted))
 	}
 }
 
@@ -839,12 +902,6 @@ func TestVerif_C17_Machine(t *testing.T) {
 			vk.Label("npp=5..17")
 		default:
 			vk.Label("npp>17")
-		}
-		for i := 0; i < s.tipDropped; i++ {
-			vk.Excluded("evict-dropped-partial-tip-page(reopened)")
-		}
-		if s.tipDropped > 0 {
-			vk.Label("tip-page-dropped(excluded,reopened)")
 		}
 		vk.Add("ops", int64(nops))
 		vk.Add("root_checks", int64(s.rootChecks))
